@@ -524,16 +524,28 @@ impl Catalog {
         snapshot: &Snapshot,
         cascade: bool,
     ) -> CatalogResult<()> {
-        if cascade {
+        // The indexes of a table never outlive it (their names would stay taken and their trees
+        // allocated); CASCADE additionally removes the other objects that depend on it.
+        let dependants: Vec<ObjectId> = {
             let schema = rel.schema();
-            let dependants = schema.get_dependants();
-
-            // Recursively remove object dependants
-            for dep in dependants {
-                let relation = self.get_relation(dep, builder, snapshot)?;
-                self.remove_relation(relation, builder, snapshot, cascade)?;
+            if cascade {
+                schema.get_dependants()
+            } else if schema.is_index() {
+                Vec::new()
+            } else {
+                schema
+                    .table_indexes
+                    .as_ref()
+                    .map(|indexes| indexes.keys().copied().collect())
+                    .unwrap_or_default()
             }
         };
+
+        // Recursively remove object dependants
+        for dep in dependants {
+            let relation = self.get_relation(dep, builder, snapshot)?;
+            self.remove_relation(relation, builder, snapshot, cascade)?;
+        }
 
         // First, deallocate the relation.
         // Deallocate the relation.
